@@ -1,35 +1,52 @@
 #!/bin/bash
 # confirm_seeds.sh <seed dirs...>: confirm each seeded change in a scratch worktree and copy it to /verif/seeded/<name>/
+# A file `placement` in the seed directory ("<test file> <package dir>" per line) places demo tests outside the module root.
 export GOFLAGS=-mod=mod GOPROXY=off GOSUMDB=off GOTOOLCHAIN=local
-WT=/tmp/confirm-wt
-git -C /repo worktree remove --force $WT 2>/dev/null
+WT=/tmp/confirm-wt-$$
 git -C /repo worktree add --detach -q $WT HEAD || exit 2
+trap 'cd /; git -C /repo worktree remove --force $WT; git -C /repo worktree prune' EXIT
 for d in "$@"; do
-  n=$(basename $d); id=${n%%-*}
+  d=${d%/}; n=$(basename $d); id=${n%%-*}
   out=/verif/seeded/$n; mkdir -p $out
-  cp $d/patch.diff $out/; cp $d/*_test.go $out/ 2>/dev/null; cp $d/README.md $out/AGENT-README.md 2>/dev/null
+  cp $d/patch.diff $out/; cp $d/*_test.go $out/ 2>/dev/null; cp $d/README.md $out/AGENT-README.md 2>/dev/null; cp $d/placement $out/ 2>/dev/null
   race=""; [ "$id" = "C15" ] && race="-race"
   cd $WT
+  place() { # copy demo tests to their packages; prints the package list
+    pk="."
+    for f in $out/*_test.go; do
+      bn=$(basename $f); dest="."
+      if [ -f $out/placement ]; then p=$(awk -v f=$bn '$1==f{print $2}' $out/placement); [ -n "$p" ] && dest=$p; fi
+      cp $f $WT/$dest/; echo "$dest/$bn" >> $WT/.placed
+      case " $pk " in *" ./$dest "*) ;; *) [ "$dest" != "." ] && pk="$pk ./$dest";; esac
+    done
+    if [ -f $out/placement ] && ! grep -q -v . /dev/null; then :; fi
+    echo $pk
+  }
+  unplace() { [ -f $WT/.placed ] && (cd $WT; xargs rm -f < .placed; rm -f .placed); }
   git apply $out/patch.diff || { echo "$n: patch does not apply" | tee $out/confirm.log; continue; }
-  cp $d/*_test.go $WT/
+  pkgs=$(place)
+  # run only packages that hold a demo
+  runpk=""; for p in $pkgs; do if ls $WT/$p/zz_seed_*_test.go >/dev/null 2>&1; then runpk="$runpk $p"; fi; done
   go build ./... > $out/confirm.log 2>&1; b=$?
-  go test $race -vet=off -count=1 -timeout 300s -run 'TestSeed' . >> $out/confirm.log 2>&1; with=$?
-  rm -f $WT/zz_seed_*_test.go
-  go test -vet=off -count=1 -timeout 600s . ./tests/... > $out/suite.log 2>&1; suite=$?
+  go test $race -vet=off -count=1 -timeout 600s -run 'TestSeed' $runpk >> $out/confirm.log 2>&1; with=$?
+  unplace
+  go test -vet=off -count=1 -timeout 900s . ./tests/... > $out/suite.log 2>&1; suite=$?
   git apply -R $out/patch.diff
-  cp $d/*_test.go $WT/
-  go test $race -vet=off -count=1 -timeout 300s -run 'TestSeed' . > $out/confirm_base.log 2>&1; without=$?
-  rm -f $WT/zz_seed_*_test.go
-  git -C $WT status --short | grep -v "^??" > /dev/null && echo "worktree dirty after $n"
-  python3 - "$n" "$id" "$b" "$with" "$suite" "$without" "$race" <<'PY'
-import json,sys
-n,id,b,w,s,wo,race=sys.argv[1:8]
-meta={"seed":n,"property":id,"build_rc":int(b),"demo_with_change_rc":int(w),"suite_with_change_rc":int(s),"demo_without_change_rc":int(wo),
+  place >/dev/null
+  go test $race -vet=off -count=1 -timeout 600s -run 'TestSeed' $runpk > $out/confirm_base.log 2>&1; without=$?
+  unplace
+  git -C $WT status --short | grep -v "^??" > /dev/null && { echo "worktree dirty after $n"; git -C $WT checkout -q -- .; }
+  git -C $WT clean -fdq
+  python3 - "$n" "$id" "$b" "$with" "$suite" "$without" "$race" "$runpk" <<'PY'
+import json,sys,os
+n,id,b,w,s,wo,race,runpk=sys.argv[1:9]
+p='/verif/seeded/%s/meta.json'%n
+meta=json.load(open(p)) if os.path.exists(p) else {}
+meta.update({"seed":n,"property":id,"build_rc":int(b),"demo_with_change_rc":int(w),"suite_with_change_rc":int(s),"demo_without_change_rc":int(wo),
  "confirmed": int(b)==0 and int(w)!=0 and int(s)==0 and int(wo)==0,
- "ran":["go build ./...","go test %s -vet=off -count=1 -run TestSeed . (with the change: must fail)"%race,"go test -vet=off -count=1 . ./tests/... (with the change: must pass)","go test %s -vet=off -count=1 -run TestSeed . (without the change: must pass)"%race],
- "needs_to_manifest":"see AGENT-README.md","source":"independent sub-agent given only the property text and a scratch worktree"}
-json.dump(meta,open('/verif/seeded/%s/meta.json'%n,'w'),indent=1)
-print(n, "confirmed" if meta["confirmed"] else "NOT CONFIRMED", meta)
+ "ran":["go build ./...","go test %s -vet=off -count=1 -run TestSeed %s (with the change: must fail)"%(race,runpk.strip()),"go test -vet=off -count=1 . ./tests/... (with the change: must pass)","go test %s -vet=off -count=1 -run TestSeed %s (without the change: must pass)"%(race,runpk.strip())],
+ "needs_to_manifest":"see AGENT-README.md","source":"independent sub-agent given only the property text and a scratch worktree"})
+json.dump(meta,open(p,'w'),indent=1)
+print(n, "confirmed" if meta["confirmed"] else "NOT CONFIRMED", {k:meta[k] for k in ("build_rc","demo_with_change_rc","suite_with_change_rc","demo_without_change_rc")})
 PY
 done
-cd /; git -C /repo worktree remove --force $WT
